@@ -133,20 +133,31 @@ def junctions_well_separated(sc, sep=40):
     junctions are clustered by the intron graph and their representative is chosen by coordinate order, which the
     statement exempts from the reflected model comparison"""
     sites = defaultdict(set)
+    support = Counter()
+    annotated = set()
     for r in sc["reads"]:
         b = R.cigar_blocks(r["p"], r["cg"])
         for i in range(len(b) - 1):
-            sites[r["c"]].add(b[i][1])
-            sites[r["c"]].add(b[i + 1][0])
+            for x in (b[i][1], b[i + 1][0]):
+                sites[r["c"]].add(x)
+                support[(r["c"], x)] += 1
     for g in sc["genes"]:
         for t in g["transcripts"]:
             e = t["exons"]
             for i in range(len(e) - 1):
-                sites[g["chr"]].add(e[i][1])
-                sites[g["chr"]].add(e[i + 1][0])
+                for x in (e[i][1], e[i + 1][0]):
+                    sites[g["chr"]].add(x)
+                    annotated.add((g["chr"], x))
     for c, ss in sites.items():
         ss = sorted(ss)
-        if any(b - a < sep for a, b in zip(ss, ss[1:])):
+        for a, b in zip(ss, ss[1:]):
+            if b - a >= sep:
+                continue
+            # in noise-free data two close unannotated sites with different read support are two real sites and there
+            # is no tie to break: the better supported one has an orientation-free meaning
+            if sc.get("noise_free") and (c, a) not in annotated and (c, b) not in annotated and \
+                    support[(c, a)] != support[(c, b)] and b - a > 12:
+                continue
             return False
     return True
 
@@ -330,6 +341,17 @@ def evaluate(case, ctx):
                     diff_keys = list((ma - mb).keys()) + list((mb - ma).keys())
                     only_counts = sa == sb and all((k_[0], tuple(k_[2])) in ref_structs for k_ in diff_keys)
                     suffix = ":known-isoform-read-support-depends-on-path-order" if only_counts else ""
+                    # known finding (polyT convention): the 3' end of an unspliced novel model is the recorded tail
+                    # position; the polyT search looks at 3 aligned bases next to the head, the polyA search at 2 next to
+                    # the tail, so that a read whose aligned part ends in A's gets tail positions that are not mirror
+                    # images (same root as the reflection finding polyT-position-convention)
+                    da, db = list((ma - mb).keys()), list((mb - ma).keys())
+                    if not suffix and da and len(da) == len(db) and all(len(k_[2]) == 1 for k_ in da + db) and all(
+                            any(y[0] == x[0] and y[1] == x[1] and y[3] == x[3] and
+                                (y[2][0][0] == x[2][0][0] or y[2][0][1] == x[2][0][1]) and
+                                1 <= abs(y[2][0][0] - x[2][0][0]) + abs(y[2][0][1] - x[2][0][1]) <= 3 for y in db)
+                            for x in da):
+                        suffix = ":end-of-an-unspliced-model-follows-the-recorded-tail-position"
                     ctx.violation("C11:reflect:transcript-models-not-mirrored" + suffix,
                                   {"only_original(mirrored)": [list(x) for x in (ma - mb).keys()][:2],
                                    "only_reflected": [list(x) for x in (mb - ma).keys()][:2]}, case)
@@ -356,7 +378,11 @@ def corner_scenarios(draw):
     """Parametrised corner templates for left/right symmetric code paths (structures suggested by the leads in
     hunt/C11, coordinates and counts generated): every case is noise-free and compared under reflection."""
     src = S.DrawSrc(draw)
-    kind = src.choice(["event_order", "micro_intron_blocks", "threaded_ends", "adjacent_cluster", "corner_start"])
+    kind = src.choice(["event_order", "micro_intron_blocks", "threaded_ends", "adjacent_cluster", "corner_start",
+                       "similar_novel", "monoexon_overlap"])
+    extra_opts = []
+    if os.environ.get("VERIF_C11_KIND"):
+        kind = os.environ["VERIF_C11_KIND"]         # debugging aid: one template only
     strand = src.choice(["+", "-"])
     base = src.int(600, 1500)
     reads, novel = [], []
@@ -433,6 +459,38 @@ def corner_scenarios(draw):
             C = chain(ln, gp, c1 - (sum(ln) + sum(gp)) + 1)
         novel.append(C)
         add(C, src.int(3, 6), prefix="p")
+    elif kind == "similar_novel":
+        # two unannotated isoforms that differ by an alternative donor/acceptor a little beyond delta, unequal support
+        T = chain([src.int(180, 240)] * 3, [src.int(280, 400)] * 2, base)
+        trs = [{"id": "T", "exons": T}]
+        s0 = T[-1][1] + src.int(1500, 2500)
+        A = chain([src.int(250, 350), src.int(180, 240), src.int(300, 450)], [src.int(600, 800), src.int(700, 900)], s0)
+        dd = src.int(13, 25)
+        if src.bool(0.5):
+            B = [A[0], [A[1][0], A[1][1] + dd], A[2]]
+        else:
+            B = [A[0], [A[1][0] - dd, A[1][1]], A[2]]
+        novel += [A, B]
+        na = src.int(5, 8)
+        add(A, na, prefix="a")
+        add(B, src.int(3, na - 1), prefix="b")
+    elif kind == "monoexon_overlap":
+        # overlapping unspliced transcripts on opposite strands (polyA tails vs polyT heads), unequal support
+        T = chain([src.int(180, 240)] * 3, [src.int(280, 400)] * 2, base)
+        trs = [{"id": "T", "exons": T}]
+        s0 = T[-1][1] + src.int(1500, 2500)
+        ln = src.int(500, 800)
+        ov = src.int(ln // 3, ln - 50)
+        X, Y = [[s0, s0 + ln - 1]], [[s0 + ln - ov, s0 + 2 * ln - ov - 1]]
+        nx = src.int(5, 8)
+        first = src.choice(["+", "-"])
+        for _ in range(nx):
+            k += 1
+            reads.append(S.exact_read("x%d" % k, "chr1", first, X, polya=src.int(22, 32)))
+        for _ in range(src.int(3, nx - 1)):
+            k += 1
+            reads.append(S.exact_read("y%d" % k, "chr1", "-" if first == "+" else "+", Y, polya=src.int(22, 32)))
+        extra_opts = ["--report_novel_unspliced", "true"]
     else:
         e1 = src.int(160, 220)
         T = chain([e1, src.int(260, 320)], [src.int(700, 900)], base)
@@ -467,6 +525,7 @@ def corner_scenarios(draw):
           "gtf": {"gene_records": True, "transcript_records": True},
           "opts": ["--data_type", src.choice(["nanopore", "pacbio_ccs"]), "--no_gzip", "--threads", "1"],
           "noise_free": True, "corner": kind, "transform": {"kind": "reflect"}}
+    sc["opts"] += extra_opts
     return sc
 
 
